@@ -1,7 +1,7 @@
 (* Proofs/KernelsP.v — termination (explicit fuel bounds, by decreasing measures), memory safety
    (no OutOfBounds) and the refutations for the kernels of Model/Kernels.v. *)
 From Coq Require Import ZArith List Bool Lia ZifyBool.
-From Verif Require Import Kernels.
+From Verif Require Import Py PyExt PyValid S_validators Kernels.
 Import ListNotations.
 Open Scope Z_scope.
 
@@ -34,7 +34,7 @@ Qed.
 Lemma rd_last_ok {A} (l : list A) :
   0 < zlen l -> exists v, rd l (-1) = Done v /\ nth_error l (Z.to_nat (zlen l - 1)) = Some v.
 Proof.
-  intros H. unfold rd. cbn [Z.ltb Z.compare]. replace (-1 + zlen l) with (zlen l - 1) by lia.
+  intros H. unfold rd. change (-1 <? 0) with true. cbn iota. replace (-1 + zlen l) with (zlen l - 1) by lia.
   destruct (Z.ltb_spec (zlen l - 1) 0); [lia|]. destruct (Z.leb_spec (zlen l) (zlen l - 1)); [lia|]. cbn.
   destruct (nth_error l (Z.to_nat (zlen l - 1))) eqn:E; [eexists; split; reflexivity|].
   apply nth_error_None in E. unfold zlen in *. lia.
@@ -74,7 +74,7 @@ Qed.
 Lemma wr_last_ok {A} (l : list A) v :
   0 < zlen l -> exists l', wr l (-1) v = Done l' /\ length l' = length l.
 Proof.
-  intros H. unfold wr, upd. cbn [Z.ltb Z.compare]. replace (-1 + zlen l) with (zlen l - 1) by lia.
+  intros H. unfold wr, upd. change (-1 <? 0) with true. cbn iota. replace (-1 + zlen l) with (zlen l - 1) by lia.
   destruct (Z.ltb_spec (zlen l - 1) 0); [lia|]. destruct (Z.leb_spec (zlen l) (zlen l - 1)); [lia|]. cbn.
   destruct (nth_error l (Z.to_nat (zlen l - 1))) eqn:E.
   - cbn. eexists; split; [reflexivity|apply set_nth_length].
@@ -182,6 +182,19 @@ Ltac kstep :=
     end
   end.
 
+(* the generated outer-loop tests: `didx1 < len(data1) and out_shape[1] > 0` *)
+Lemma dcn_outer_test_val d n C :
+  py_true (sv_dcn_outer_test (VInt d) (VInt n) (VInt C)) = (d <? n) && (0 <? C).
+Proof.
+  unfold sv_dcn_outer_test. cbn. destruct (d <? n); cbn; [|reflexivity]. rewrite Z.gtb_ltb. reflexivity.
+Qed.
+
+Lemma dcs_outer_test_val d n C :
+  py_true (sv_dcs_outer_test (VInt d) (VInt n) (VInt C)) = (d <? n) && (0 <? C).
+Proof.
+  unfold sv_dcs_outer_test. cbn. destruct (d <? n); cbn; [|reflexivity]. rewrite Z.gtb_ltb. reflexivity.
+Qed.
+
 (* ================================================================= _dot_coo_ndarray *)
 Section DotCooNdarrayP.
   Variables (rows cols data : list Z) (arr2 : list (list Z)) (R C : Z).
@@ -231,13 +244,13 @@ Section DotCooNdarrayP.
   Qed.
 
   Lemma dcn_outer_nofuel fuel d out :
-    0 < C -> 0 <= d -> Z.max 0 (n - d) < Z.of_nat fuel -> n < Z.of_nat F ->
+    0 <= d -> Z.max 0 (n - d) < Z.of_nat fuel -> n < Z.of_nat F ->
     dcn_outer rows cols data arr2 C F fuel d out <> OutOfFuel.
   Proof.
-    intros HC. revert d out. induction fuel as [|f IH]; intros d out Hd Hf HF;
-      [subst n; pose proof (zlen_nonneg data); lia|].
-    cbn [dcn_outer]. fold n.
+    revert d out. induction fuel as [|f IH]; intros d out Hd Hf HF; [lia|].
+    cbn [dcn_outer]. fold n. rewrite dcn_outer_test_val.
     destruct (Z.ltb_spec d n) as [Hlt|Hge]; [|discriminate].
+    destruct (Z.ltb_spec 0 C) as [HC|HC]; [|discriminate]. cbn [andb].
     destruct (rd_cases rows d) as [[r Er]|Er]; rewrite Er; cbn [kbind]; [|discriminate].
     pose proof (dcn_for_progress (zrange C) r d d out Hd ltac:(lia)) as Hp.
     destruct (dcn_for _ _ _ _ F (zrange C) r d d out) as [[d' o']| | |]; cbn [kbind]; try discriminate; [|contradiction].
@@ -245,30 +258,15 @@ Section DotCooNdarrayP.
     specialize (H3 Hlt Er). apply IH; lia.
   Qed.
 
-  (* the guard the CALLER has to establish: the output has at least one column (or there is
-     nothing stored); fuel |data| + 1 then suffices for every loop *)
+  (* for ALL inputs (no hypothesis on the operands): fuel |data| + 1 suffices for every loop.
+     The proof goes through the GENERATED loop test: without its `out_shape[1] > 0` conjunct the
+     case C <= 0 makes no progress (finding D3, repaired by commit d27a95d). *)
   Theorem dot_coo_ndarray_terminates_proof :
-    0 < C \/ data = [] ->
-    (Z.of_nat F = zlen data + 1) ->
+    Z.of_nat F = zlen data + 1 ->
     dot_coo_ndarray rows cols data arr2 R C F <> OutOfFuel.
   Proof.
-    intros [HC|Hnil] HF; unfold dot_coo_ndarray.
-    - apply dcn_outer_nofuel; fold n; lia.
-    - subst data. destruct F as [|f]; [cbn in HF; lia|]. cbn. discriminate.
-  Qed.
-
-  (* D3: with no output column the for loop body never runs, didx1 never advances *)
-  Lemma dcn_outer_diverges fuel out :
-    C <= 0 -> rows <> [] -> data <> [] ->
-    dcn_outer rows cols data arr2 C F fuel 0 out = OutOfFuel.
-  Proof.
-    intros HC Hr Hdt. induction fuel as [|f IH]; [reflexivity|].
-    cbn [dcn_outer].
-    assert (0 < zlen data) by (destruct data; [congruence|rewrite zlen_cons; pose proof (zlen_nonneg l); lia]).
-    assert (0 < zlen rows) by (destruct rows; [congruence|rewrite zlen_cons; pose proof (zlen_nonneg l); lia]).
-    destruct (Z.ltb_spec 0 (zlen data)); [|lia].
-    destruct (rd_ok rows 0 ltac:(lia)) as [r [-> _]]. cbn [kbind].
-    rewrite (zrange_nil C HC). cbn [dcn_for kbind]. exact IH.
+    intros HF. unfold dot_coo_ndarray.
+    pose proof (zlen_nonneg data). apply dcn_outer_nofuel; unfold n; lia.
   Qed.
 
   (* memory safety *)
@@ -325,8 +323,9 @@ Section DotCooNdarrayP.
     dcn_outer rows cols data arr2 C F fuel d out <> OutOfBounds.
   Proof.
     revert d out. induction fuel as [|f IH]; intros d out Hd Hm; [discriminate|].
-    cbn [dcn_outer]. fold n.
+    cbn [dcn_outer]. fold n. rewrite dcn_outer_test_val.
     destruct (Z.ltb_spec d n) as [Hlt|Hge]; [|discriminate].
+    destruct (Z.ltb_spec 0 C) as [HC0|HC0]; [|discriminate]. cbn [andb].
     assert (Hdr : 0 <= d < zlen rows) by (unfold zlen in *; subst n; unfold zlen in Hlt; lia).
     destruct (rd_ok rows d Hdr) as [r [-> Hnr]]. cbn [kbind].
     assert (Hcs : Forall (fun c => 0 <= c < C) (zrange C)).
@@ -342,3 +341,420 @@ Section DotCooNdarrayP.
     intros HR HC. unfold dot_coo_ndarray. apply dcn_outer_in_bounds; [lia|apply zeros2_ok; assumption].
   Qed.
 End DotCooNdarrayP.
+
+(* ================================================================= _dot_coo_ndarray, sparse result *)
+Section DotCooNdarraySparseP.
+  Variables (rows cols data : list Z) (arr2 : list (list Z)) (C : Z).
+  Variable F : nat.
+  Let n := zlen data.
+
+  Lemma dcs_inner_progress fuel cr oidx2 cur acc :
+    0 <= cur -> Z.max 0 (n - cur) < Z.of_nat fuel ->
+    match dcs_inner rows cols data arr2 fuel cr oidx2 cur acc with
+    | Done (cur', _) => cur <= cur' /\ cur' <= Z.max cur n /\ (cur < n -> rd rows cur = Done cr -> cur < cur')
+    | OutOfFuel => False
+    | _ => True
+    end.
+  Proof.
+    revert cur acc. induction fuel as [|f IH]; intros cur acc Hd Hf; [lia|].
+    cbn [dcs_inner]. fold n.
+    destruct (Z.ltb_spec cur n) as [Hlt|Hge]; [|lia].
+    destruct (rd_cases rows cur) as [[r Er]|Er]; rewrite Er; cbn [kbind]; [|exact I].
+    destruct (Z.eqb_spec r cr) as [->|Hne].
+    - repeat (kacc; try exact I).
+      specialize (IH (cur + 1) (acc + v * v1) ltac:(lia) ltac:(lia)).
+      destruct (dcs_inner _ _ _ _ f cr oidx2 (cur + 1) _) as [[d' o']| | |]; try exact I; [|exact IH].
+      lia.
+    - split; [lia|]. split; [lia|]. intros _ E. congruence.
+  Qed.
+
+  Lemma dcs_mid_progress fuel cr didx1 cur oidx2 out :
+    0 <= didx1 -> Z.max 0 (n - didx1) < Z.of_nat F -> Z.max 0 (C - oidx2) < Z.of_nat fuel ->
+    match dcs_mid rows cols data arr2 C F fuel cr didx1 cur oidx2 out with
+    | Done (cur', _) =>
+      (C <= oidx2 -> cur' = cur) /\
+      (oidx2 < C -> didx1 <= cur' /\ cur' <= Z.max didx1 n /\
+                    (didx1 < n -> rd rows didx1 = Done cr -> didx1 < cur'))
+    | OutOfFuel => False
+    | _ => True
+    end.
+  Proof.
+    intros Hd HF. revert cur oidx2 out. induction fuel as [|f IH]; intros cur oidx2 out Hf; [lia|].
+    cbn [dcs_mid].
+    destruct (Z.ltb_spec oidx2 C) as [Hlt|Hge]; [|split; [reflexivity|lia]].
+    pose proof (dcs_inner_progress F cr oidx2 didx1 0 Hd HF) as Hi.
+    destruct (dcs_inner _ _ _ _ F cr oidx2 didx1 0) as [[c1 a1]| | |]; cbn [kbind]; try exact I; [|exact Hi].
+    specialize (IH c1 (oidx2 + 1) (if a1 =? 0 then out else out ++ [(cr, oidx2, a1)]) ltac:(lia)).
+    destruct (dcs_mid _ _ _ _ C F f cr didx1 c1 (oidx2 + 1) _) as [[c' o']| | |]; try exact I; [|exact IH].
+    destruct IH as [IH1 IH2]. split; [lia|]. intros _.
+    destruct (Z.ltb_spec (oidx2 + 1) C) as [H1|H1]; [apply IH2; assumption|].
+    rewrite (IH1 H1). exact Hi.
+  Qed.
+
+  Lemma dcs_outer_nofuel fuel d out :
+    0 <= d -> Z.max 0 (n - d) < Z.of_nat fuel -> n < Z.of_nat F -> C < Z.of_nat F ->
+    dcs_outer rows cols data arr2 C F fuel d out <> OutOfFuel.
+  Proof.
+    revert d out. induction fuel as [|f IH]; intros d out Hd Hf HF HFC; [lia|].
+    cbn [dcs_outer]. fold n. rewrite dcs_outer_test_val.
+    destruct (Z.ltb_spec d n) as [Hlt|Hge]; [|discriminate].
+    destruct (Z.ltb_spec 0 C) as [HC|HC]; [|discriminate]. cbn [andb].
+    destruct (rd_cases rows d) as [[r Er]|Er]; rewrite Er; cbn [kbind]; [|discriminate].
+    pose proof (dcs_mid_progress F r d d 0 out Hd ltac:(lia) ltac:(lia)) as Hp.
+    destruct (dcs_mid _ _ _ _ C F F r d d 0 out) as [[d' o']| | |]; cbn [kbind]; try discriminate; [|contradiction].
+    destruct Hp as [_ Hp]. specialize (Hp HC). destruct Hp as [H1 [H2 H3]].
+    specialize (H3 Hlt Er). apply IH; lia.
+  Qed.
+
+  Theorem dot_coo_ndarray_sparse_terminates_proof :
+    Z.of_nat F = zlen data + Z.max 0 C + 1 ->
+    dot_coo_ndarray_sparse rows cols data arr2 C F <> OutOfFuel.
+  Proof.
+    intros HF. unfold dot_coo_ndarray_sparse.
+    pose proof (zlen_nonneg data). apply dcs_outer_nofuel; unfold n; lia.
+  Qed.
+
+  Variable K R : Z.
+  Hypothesis Hrows : length rows = length data.
+  Hypothesis Hcols : length cols = length data.
+  Hypothesis Hcols_rng : Forall (fun c => 0 <= c < K) cols.
+  Hypothesis Harr2 : mat_ok C K arr2.
+
+  Lemma dcs_inner_in_bounds fuel cr oidx2 cur acc :
+    0 <= cur -> 0 <= oidx2 < C ->
+    match dcs_inner rows cols data arr2 fuel cr oidx2 cur acc with
+    | Done (cur', _) => cur <= cur'
+    | OutOfBounds => False
+    | _ => True
+    end.
+  Proof.
+    revert cur acc. induction fuel as [|f IH]; intros cur acc Hd Ho; [exact I|].
+    cbn [dcs_inner]. fold n.
+    destruct (Z.ltb_spec cur n) as [Hlt|Hge]; [|lia].
+    assert (Hdr : 0 <= cur < zlen rows) by (unfold zlen in *; subst n; unfold zlen in Hlt; lia).
+    assert (Hdc : 0 <= cur < zlen cols) by (unfold zlen in *; subst n; unfold zlen in Hlt; lia).
+    destruct (rd_ok rows cur Hdr) as [r [-> Hnr]]. cbn [kbind].
+    destruct (Z.eqb_spec r cr) as [<-|Hne]; [|lia].
+    destruct (rd_ok data cur ltac:(subst n; lia)) as [dv [-> _]]. cbn [kbind].
+    destruct (rd_ok cols cur Hdc) as [c [-> Hnc]]. cbn [kbind].
+    pose proof (nth_error_Forall _ _ _ _ Hcols_rng Hnc) as Hc. cbn in Hc.
+    destruct (rd2_ok C K arr2 oidx2 c Harr2 Ho Hc) as [b ->]. cbn [kbind].
+    specialize (IH (cur + 1) (acc + dv * b) ltac:(lia) Ho).
+    destruct (dcs_inner _ _ _ _ f r oidx2 (cur + 1) _) as [[d' o']| | |]; try exact I; [|exact IH].
+    lia.
+  Qed.
+
+  Lemma dcs_mid_in_bounds fuel cr didx1 cur oidx2 out :
+    0 <= didx1 -> 0 <= cur -> 0 <= oidx2 ->
+    match dcs_mid rows cols data arr2 C F fuel cr didx1 cur oidx2 out with
+    | Done (cur', _) => 0 <= cur'
+    | OutOfBounds => False
+    | _ => True
+    end.
+  Proof.
+    intros Hd. revert cur oidx2 out. induction fuel as [|f IH]; intros cur oidx2 out Hc Ho; [exact I|].
+    cbn [dcs_mid].
+    destruct (Z.ltb_spec oidx2 C) as [Hlt|Hge]; [|exact Hc].
+    pose proof (dcs_inner_in_bounds F cr oidx2 didx1 0 Hd ltac:(lia)) as Hi.
+    destruct (dcs_inner _ _ _ _ F cr oidx2 didx1 0) as [[c1 a1]| | |]; cbn [kbind]; try exact I; [|exact Hi].
+    apply IH; lia.
+  Qed.
+
+  Lemma dcs_outer_in_bounds fuel d out :
+    0 <= d -> dcs_outer rows cols data arr2 C F fuel d out <> OutOfBounds.
+  Proof.
+    revert d out. induction fuel as [|f IH]; intros d out Hd; [discriminate|].
+    cbn [dcs_outer]. fold n. rewrite dcs_outer_test_val.
+    destruct (Z.ltb_spec d n) as [Hlt|Hge]; [|discriminate].
+    destruct (Z.ltb_spec 0 C) as [HC0|HC0]; [|discriminate]. cbn [andb].
+    assert (Hdr : 0 <= d < zlen rows) by (unfold zlen in *; subst n; unfold zlen in Hlt; lia).
+    destruct (rd_ok rows d Hdr) as [r [-> Hnr]]. cbn [kbind].
+    pose proof (dcs_mid_in_bounds F r d d 0 out Hd Hd ltac:(lia)) as Hm.
+    destruct (dcs_mid _ _ _ _ C F F r d d 0 out) as [[d' o']| | |]; cbn [kbind]; try discriminate; [|contradiction].
+    apply IH; exact Hm.
+  Qed.
+
+  Theorem dot_coo_ndarray_sparse_in_bounds_proof :
+    dot_coo_ndarray_sparse rows cols data arr2 C F <> OutOfBounds.
+  Proof. unfold dot_coo_ndarray_sparse. apply dcs_outer_in_bounds. lia. Qed.
+End DotCooNdarraySparseP.
+
+(* ================================================================= _dot_ndarray_coo (for loops only) *)
+Section DotNdarrayCooP.
+  Variables (arr1 : list (list Z)) (crow ccol data : list Z) (R C K : Z).
+  Hypothesis Hcrow : length crow = length data.
+  Hypothesis Hccol : length ccol = length data.
+  Hypothesis Hcrow_rng : Forall (fun k => 0 <= k < K) crow.
+  Hypothesis Hccol_rng : Forall (fun c => 0 <= c < C) ccol.
+  Hypothesis Harr1 : mat_ok R K arr1.
+
+  Lemma dnc_row_ok ds oidx1 out :
+    Forall (fun d => 0 <= d < zlen data) ds -> 0 <= oidx1 < R -> mat_ok R C out ->
+    exists out', dnc_row arr1 crow ccol data ds oidx1 out = Done out' /\ mat_ok R C out'.
+  Proof.
+    intros Hds Ho. revert out. induction Hds as [|d ds Hd Hds IH]; intros out Hm; cbn [dnc_row].
+    - eexists; split; [reflexivity|assumption].
+    - assert (Hdr : 0 <= d < zlen crow) by (unfold zlen in *; lia).
+      assert (Hdc : 0 <= d < zlen ccol) by (unfold zlen in *; lia).
+      destruct (rd_ok ccol d Hdc) as [c [-> Hnc]]. cbn [kbind].
+      pose proof (nth_error_Forall _ _ _ _ Hccol_rng Hnc) as Hc. cbn in Hc.
+      destruct (rd_ok crow d Hdr) as [k [-> Hnk]]. cbn [kbind].
+      pose proof (nth_error_Forall _ _ _ _ Hcrow_rng Hnk) as Hk. cbn in Hk.
+      destruct (rd2_ok R K arr1 oidx1 k Harr1 Ho Hk) as [a ->]. cbn [kbind].
+      destruct (rd_ok data d Hd) as [dv [-> _]]. cbn [kbind].
+      destruct (upd2_ok R C out oidx1 c (fun v => v + a * dv) Hm Ho Hc) as [out' [-> Hm']]. cbn [kbind].
+      apply IH. assumption.
+  Qed.
+
+  Lemma dnc_rows_ok rs out :
+    Forall (fun r => 0 <= r < R) rs -> mat_ok R C out ->
+    exists out', dnc_rows arr1 crow ccol data rs out = Done out' /\ mat_ok R C out'.
+  Proof.
+    intros Hrs. revert out. induction Hrs as [|r rs Hr Hrs IH]; intros out Hm; cbn [dnc_rows].
+    - eexists; split; [reflexivity|assumption].
+    - assert (Hds : Forall (fun d => 0 <= d < zlen data) (zrange (zlen data))).
+      { apply Forall_forall. intros x Hx. apply zrange_In in Hx. exact Hx. }
+      destruct (dnc_row_ok _ r out Hds Hr Hm) as [o1 [-> Hm1]]. cbn [kbind]. apply IH. assumption.
+  Qed.
+
+  Theorem dot_ndarray_coo_in_bounds_proof :
+    0 <= R -> 0 <= C ->
+    exists out, dot_ndarray_coo arr1 crow ccol data R C = Done out /\ mat_ok R C out.
+  Proof.
+    intros HR HC. unfold dot_ndarray_coo. apply dnc_rows_ok; [|apply zeros2_ok; assumption].
+    apply Forall_forall. intros x Hx. apply zrange_In in Hx. exact Hx.
+  Qed.
+End DotNdarrayCooP.
+
+Section DotNdarrayCooSparseP.
+  Variables (arr1 : list (list Z)) (c0 c1 data : list Z) (R K : Z).
+  Hypothesis Hc0 : length c0 = length data.
+  Hypothesis Hc1 : length c1 = length data.
+  Hypothesis Hc1_rng : Forall (fun k => 0 <= k < K) c1.
+  Hypothesis Harr1 : mat_ok R K arr1.
+
+  Lemma dncs_row_ok ds oidx1 dc cc out :
+    Forall (fun d => 0 <= d < zlen data) ds -> 0 <= oidx1 < R ->
+    exists r, dncs_row arr1 c0 c1 data ds oidx1 dc cc out = Done r.
+  Proof.
+    intros Hds Ho. revert dc cc out. induction Hds as [|d ds Hd Hds IH]; intros dc cc out; cbn [dncs_row].
+    - eexists; reflexivity.
+    - assert (Hd0 : 0 <= d < zlen c0) by (unfold zlen in *; lia).
+      assert (Hd1 : 0 <= d < zlen c1) by (unfold zlen in *; lia).
+      destruct (rd_ok c0 d Hd0) as [g [-> _]]. cbn [kbind].
+      destruct (if negb (g =? cc) then _ else _) as [[dc' cc'] out1].
+      destruct (rd_ok c1 d Hd1) as [k [-> Hnk]]. cbn [kbind].
+      pose proof (nth_error_Forall _ _ _ _ Hc1_rng Hnk) as Hk. cbn in Hk.
+      destruct (rd2_ok R K arr1 oidx1 k Harr1 Ho Hk) as [a ->]. cbn [kbind].
+      destruct (rd_ok data d Hd) as [dv [-> _]]. cbn [kbind]. apply IH.
+  Qed.
+
+  Theorem dot_ndarray_coo_sparse_in_bounds_proof :
+    exists out, dot_ndarray_coo_sparse arr1 c0 c1 data R = Done out.
+  Proof.
+    unfold dot_ndarray_coo_sparse.
+    assert (Hrs : Forall (fun r => 0 <= r < R) (zrange R)).
+    { apply Forall_forall. intros x Hx. apply zrange_In in Hx. exact Hx. }
+    generalize (@nil (Z * Z * Z)) as out. induction Hrs as [|r rs Hr Hrs IH]; intros out; cbn [dncs_rows].
+    - eexists; reflexivity.
+    - assert (Hds : Forall (fun d => 0 <= d < zlen data) (zrange (zlen data))).
+      { apply Forall_forall. intros x Hx. apply zrange_In in Hx. exact Hx. }
+      destruct (dncs_row_ok _ r 0 0 out Hds Hr) as [[[dc cc] o1] ->]. cbn [kbind]. apply IH.
+  Qed.
+End DotNdarrayCooSparseP.
+
+(* ================================================================= searchsorted (binary search) *)
+Definition znth (l : list Z) (i : Z) : Z := nth (Z.to_nat i) l 0.
+
+Lemma rd_znth l i : 0 <= i < zlen l -> rd l i = Done (znth l i).
+Proof.
+  intros H. destruct (rd_ok l i H) as [v [-> Hn]]. unfold znth. f_equal. symmetry.
+  apply nth_error_nth. assumption.
+Qed.
+
+Lemma rd_last_znth l : 0 < zlen l -> rd l (-1) = Done (znth l (zlen l - 1)).
+Proof.
+  intros H. destruct (rd_last_ok l H) as [v [-> Hn]]. unfold znth. f_equal. symmetry.
+  apply nth_error_nth. assumption.
+Qed.
+
+Definition sorted_le (l : list Z) : Prop :=
+  forall i j, 0 <= i -> i <= j -> j < zlen l -> znth l i <= znth l j.
+Definition strict_incr (l : list Z) : Prop :=
+  forall i j, 0 <= i -> i < j -> j < zlen l -> znth l i < znth l j.
+
+(* fuel hi - lo + 1 suffices (the true count is logarithmic); every probe is inside [lo, hi) *)
+Lemma bsearch_ok right fuel a v lo hi :
+  0 <= lo -> hi <= zlen a -> Z.max 0 (hi - lo) < Z.of_nat fuel ->
+  exists r, bsearch right fuel a v lo hi = Done r /\ lo <= r /\ r <= Z.max lo hi.
+Proof.
+  revert lo hi. induction fuel as [|f IH]; intros lo hi Hlo Hhi Hf; [lia|].
+  cbn [bsearch]. destruct (Z.ltb_spec lo hi) as [Hlt|Hge]; [|exists lo; split; [reflexivity|lia]].
+  assert (Hmid : lo <= (lo + hi) / 2 < hi).
+  { split; [apply Z.div_le_lower_bound; lia|apply Z.div_lt_upper_bound; lia]. }
+  rewrite (rd_znth a ((lo + hi) / 2)) by lia. cbn [kbind].
+  destruct (if right then _ else _).
+  - destruct (IH ((lo + hi) / 2 + 1) hi ltac:(lia) Hhi ltac:(lia)) as [r [-> Hr]]. exists r. split; [reflexivity|lia].
+  - destruct (IH lo ((lo + hi) / 2) Hlo ltac:(lia) ltac:(lia)) as [r [-> Hr]]. exists r. split; [reflexivity|lia].
+Qed.
+
+Theorem searchsorted_terminates_proof :
+  forall (right : bool) (a : list Z) (v : Z) (F : nat),
+    zlen a < Z.of_nat F ->
+    exists r, searchsorted right F a v = Done r /\ 0 <= r <= zlen a.
+Proof.
+  intros right a v F HF. unfold searchsorted. pose proof (zlen_nonneg a).
+  destruct (bsearch_ok right F a v 0 (zlen a) ltac:(lia) ltac:(lia) ltac:(lia)) as [r [-> Hr]].
+  exists r. split; [reflexivity|lia].
+Qed.
+
+(* on a sorted array everything left of the (side='left') answer is < v *)
+Lemma bsearch_left_spec fuel a v lo hi r :
+  sorted_le a -> 0 <= lo -> hi <= zlen a ->
+  (forall i, 0 <= i < lo -> znth a i < v) ->
+  bsearch false fuel a v lo hi = Done r ->
+  forall i, 0 <= i < r -> znth a i < v.
+Proof.
+  intros Hs. revert lo hi. induction fuel as [|f IH]; intros lo hi Hlo Hhi Hinv; [discriminate|].
+  cbn [bsearch]. destruct (Z.ltb_spec lo hi) as [Hlt|Hge]; [|intros E; inversion E; subst; assumption].
+  assert (Hmid : lo <= (lo + hi) / 2 < hi).
+  { split; [apply Z.div_le_lower_bound; lia|apply Z.div_lt_upper_bound; lia]. }
+  rewrite (rd_znth a ((lo + hi) / 2)) by lia. cbn [kbind].
+  destruct (Z.ltb_spec (znth a ((lo + hi) / 2)) v) as [Hx|Hx].
+  - apply IH; [lia|assumption|]. intros i Hi.
+    destruct (Z.ltb_spec i lo); [apply Hinv; lia|].
+    pose proof (Hs i ((lo + hi) / 2) ltac:(lia) ltac:(lia) ltac:(lia)). lia.
+  - apply IH; [lia|lia|assumption].
+Qed.
+
+Lemma searchsorted_left_spec F a v r :
+  sorted_le a -> searchsorted false F a v = Done r -> forall i, 0 <= i < r -> znth a i < v.
+Proof.
+  intros Hs E. eapply bsearch_left_spec; [exact Hs| | | |exact E]; [lia|lia|intros; lia].
+Qed.
+
+(* ================================================================= get_slicing_selection, one row *)
+Lemma zlen_skipn {A} k (l : list A) : 0 <= k <= zlen l -> zlen (skipn (Z.to_nat k) l) = zlen l - k.
+Proof. intros H. unfold zlen in *. rewrite skipn_length. lia. Qed.
+
+Lemma znth_skipn k l i : 0 <= k -> 0 <= i -> znth (skipn (Z.to_nat k) l) i = znth l (k + i).
+Proof.
+  intros Hk Hi. unfold znth. rewrite nth_skipn. f_equal. lia.
+Qed.
+
+Lemma sorted_le_skipn k l : 0 <= k <= zlen l -> sorted_le l -> sorted_le (skipn (Z.to_nat k) l).
+Proof.
+  intros Hk Hs i j Hi Hij Hj. rewrite zlen_skipn in Hj by assumption.
+  rewrite !znth_skipn by lia. apply Hs; lia.
+Qed.
+
+Section SlicingSelectionP.
+  Variables (row col : list Z) (start : Z).
+  Variable F : nat.
+  Let nr := zlen row.
+  Let nc := zlen col.
+
+  Lemma gss_linear_ok fuel count cc out :
+    0 <= count -> 0 <= cc -> Z.max 0 (nc - cc) + Z.max 0 (nr - count) < Z.of_nat fuel ->
+    exists out', gss_linear row col start fuel count cc out = Done out'.
+  Proof.
+    revert count cc out. induction fuel as [|f IH]; intros count cc out Hc Hcc Hf; [lia|].
+    cbn [gss_linear]. fold nr nc.
+    destruct (Z.ltb_spec cc nc) as [H1|H1]; cbn [andb]; [|eexists; reflexivity].
+    destruct (Z.ltb_spec count nr) as [H2|H2]; [|eexists; reflexivity].
+    rewrite (rd_last_znth row) by (fold nr; lia). cbn [kbind].
+    rewrite (rd_znth col cc) by (fold nc; lia). cbn [kbind].
+    rewrite (rd_znth row count) by (fold nr; lia).
+    rewrite (rd_last_znth col) by (fold nc; lia). cbn [kbind].
+    destruct (znth row (nr - 1) <? znth col cc); cbn [kbind]; [eexists; reflexivity|].
+    destruct (znth col (nc - 1) <? znth row count); [eexists; reflexivity|].
+    destruct (znth row count =? znth col cc); [apply IH; lia|].
+    destruct (znth row count <? znth col cc); apply IH; lia.
+  Qed.
+
+  Lemma gss_skip_ok fuel size cc :
+    0 <= size -> 0 <= cc -> Z.max 0 (nc - cc) < Z.of_nat fuel ->
+    exists cc', gss_skip row col fuel size cc = Done cc' /\ cc <= cc' /\ cc' <= Z.max cc nc.
+  Proof.
+    intros Hs. revert cc. induction fuel as [|f IH]; intros cc Hcc Hf; [lia|].
+    cbn [gss_skip]. fold nr nc.
+    destruct (Z.ltb_spec cc nc) as [H1|H1]; cbn [andb]; [|exists cc; split; [reflexivity|lia]].
+    destruct (Z.ltb_spec size nr) as [H2|H2]; [|exists cc; split; [reflexivity|lia]].
+    rewrite (rd_znth col cc) by (fold nc; lia). cbn [kbind].
+    rewrite (rd_znth row size) by (fold nr; lia). cbn [kbind].
+    destruct (znth col cc <? znth row size); [|exists cc; split; [reflexivity|lia]].
+    destruct (IH (cc + 1) ltac:(lia) ltac:(lia)) as [c' [-> Hc']]. exists c'. split; [reflexivity|lia].
+  Qed.
+
+  (* guards of the binary-search branch: the row segment is sorted (GCXS invariant), the requested
+     columns are strictly increasing (an ascending slice), the branch condition len(row) >= len(col) *)
+  Hypothesis Hrow : sorted_le row.
+  Hypothesis Hcol : strict_incr col.
+  Hypothesis Hsz : nc <= nr.
+  Hypothesis HF : nr < Z.of_nat F.
+
+  Definition binv (size cc : Z) : Prop :=
+    0 <= size <= nr /\ 0 <= cc /\ (size = nr -> cc < nc -> znth row (nr - 1) < znth col cc).
+
+  Lemma col_mono i j : 0 <= i -> i <= j -> j < nc -> znth col i <= znth col j.
+  Proof.
+    intros Hi Hij Hj. destruct (Z.eq_dec i j) as [->|Hne]; [lia|].
+    pose proof (Hcol i j Hi ltac:(lia) Hj). lia.
+  Qed.
+
+  Lemma gss_binary_ok fuel size cc out :
+    binv size cc -> Z.max 0 (nc - cc) < Z.of_nat fuel ->
+    exists out', gss_binary row col start F fuel size size cc out = Done out'.
+  Proof.
+    revert size cc out. induction fuel as [|f IH]; intros size cc out [Hsize [Hcc Hinv]] Hf; [lia|].
+    cbn [gss_binary]. fold nr nc.
+    destruct (Z.ltb_spec cc nc) as [H1|H1]; [|eexists; reflexivity].
+    destruct (gss_skip_ok F size cc ltac:(lia) Hcc ltac:(lia)) as [cc' [-> [Hc1 Hc2]]]. cbn [kbind].
+    destruct (Z.leb_spec nc cc') as [H2|H2]; [eexists; reflexivity|].
+    rewrite (rd_last_znth row) by (fold nr; lia). cbn [kbind].
+    rewrite (rd_znth col cc') by (fold nc; lia). cbn [kbind].
+    destruct (Z.ltb_spec (znth row (nr - 1)) (znth col cc')) as [H3|H3]; cbn [kbind]; [eexists; reflexivity|].
+    assert (Hlt : size < nr).
+    { destruct (Z.eq_dec size nr) as [E|E]; [|lia].
+      specialize (Hinv E H1). pose proof (col_mono cc cc' Hcc Hc1 H2). lia. }
+    rewrite (rd_znth row size) by (fold nr; lia).
+    rewrite (rd_last_znth col) by (fold nc; lia). cbn [kbind].
+    destruct (znth col (nc - 1) <? znth row size); [eexists; reflexivity|].
+    assert (Hsl : zlen (skipn (Z.to_nat size) row) = nr - size) by (apply zlen_skipn; fold nr; lia).
+    destruct (searchsorted_terminates_proof false (skipn (Z.to_nat size) row) (znth col cc') F ltac:(lia))
+      as [s0 [Es Hs0]].
+    rewrite Es. cbn [kbind].
+    assert (Hs0lt : s0 < nr - size).
+    { destruct (Z.eq_dec s0 (nr - size)) as [E|E]; [|lia].
+      pose proof (searchsorted_left_spec F _ _ _ (sorted_le_skipn size row ltac:(fold nr; lia) Hrow) Es
+                    (nr - size - 1) ltac:(lia)) as Hl.
+      rewrite znth_skipn in Hl by lia. replace (size + (nr - size - 1)) with (nr - 1) in Hl by lia. lia. }
+    destruct (Z.leb_spec nr (s0 + size)) as [H4|H4]; [lia|].
+    rewrite (rd_znth row (s0 + size)) by (fold nr; lia). cbn [kbind].
+    destruct (Z.eqb_spec (znth row (s0 + size)) (znth col cc')) as [Hx|Hx].
+    - apply IH; [|lia]. split; [lia|]. split; [lia|]. intros E Hn.
+      replace (nr - 1) with (s0 + size) by lia. rewrite Hx. apply Hcol; lia.
+    - apply IH; [|lia]. split; [lia|]. split; [lia|]. intros E. lia.
+  Qed.
+End SlicingSelectionP.
+
+Theorem slicing_selection_row_safe_proof :
+  forall (row col : list Z) (start : Z) (F : nat),
+    sorted_le row -> strict_incr col ->
+    Z.of_nat F = zlen row + zlen col + 1 ->
+    exists out, slicing_selection_row row col start F = Done out.
+Proof.
+  intros row col start F Hr Hc HF. unfold slicing_selection_row.
+  pose proof (zlen_nonneg row). pose proof (zlen_nonneg col).
+  destruct (Z.ltb_spec (zlen row) (zlen col)).
+  - apply gss_linear_ok; lia.
+  - apply gss_binary_ok; try assumption; try lia.
+    unfold binv. split; [lia|]. split; [lia|]. intros E Hn. lia.
+Qed.
+
+(* the strictness of `col` is needed: with a repeated requested column the kernel reads
+   current_row[len(current_row)] (one past the end) *)
+Example slicing_selection_row_repeat_out_of_bounds :
+  slicing_selection_row [5] [5; 5] 0 4 = Done [(0, 0)] /\
+  slicing_selection_row [3; 5] [5; 5] 0 6 = OutOfBounds.
+Proof. split; reflexivity. Qed.
